@@ -114,6 +114,8 @@ def evaluate(pid, res, known, ledger, repo_root, tier):
         real = [o for o in obls if o['kind'] != 'canary']
         if r['status'] == 'unsupported':
             undecided.append((r['label'], 'UNSUPPORTED: ' + r['detail']))
+        elif r['status'] == 'timeout':
+            undecided.append((r['label'], 'TIMEOUT: ' + r['detail']))
         elif r['status'] == 'crash':
             errors.append((r['label'], r['detail']))
         if r['status'] == 'ok' and not real:
